@@ -57,6 +57,12 @@ func (sc *specCtx) lookup(name string) (Val, bool) {
 		return Val{S: STuple, Tup: sc.result}, true
 	}
 	if sc.useNames {
+		if name == "$rpos" {
+			if it, ok := sc.st.names["$iter"]; ok {
+				r := sc.fc.regionIn(sc.st, sc.heap, "range.pos", "(Array U Int)")
+				return intVal(sel(r, it.T)), true
+			}
+		}
 		if v, ok := sc.st.names[name]; ok {
 			return v, true
 		}
@@ -129,6 +135,10 @@ func (sc *specCtx) eval(e Expr) Val {
 			}
 			rn, rs := elemsRegion(es)
 			r := sc.fc.regionIn(sc.st, sc.heap, rn, rs)
+			if es == SU {
+				// through the sequence view: quantifier patterns then avoid arithmetic
+				return Val{T: app("sq_at", app("sq_of", sel(r, app("sl_arr", x.T)), app("sl_off", x.T), app("sl_len", x.T)), i.T), S: es, GT: et}
+			}
 			return Val{T: sel(sel(r, app("sl_arr", x.T)), fmt.Sprintf("(+ (sl_off %s) %s)", x.T, i.T)), S: es, GT: et}
 		case STuple:
 			specFail("cannot index a tuple with [] (use result.N)")
@@ -298,9 +308,21 @@ func (sc *specCtx) evalField(e *FieldE) Val {
 		f := st.Field(i)
 		if f.Name() == e.Name {
 			fs := sortOfType(f.Type())
+			if fn := sc.fc.e.immutableFn(named, f.Name()); fn != "" {
+				return Val{T: app("u."+fn, x.T), S: fs, GT: f.Type()}
+			}
 			rn := fieldRegion(named.Origin(), f.Name())
 			r := sc.fc.regionIn(sc.st, sc.heap, rn, regionArraySort(fs))
-			return Val{T: sel(r, x.T), S: fs, GT: f.Type()}
+			v := Val{T: sel(r, x.T), S: fs, GT: f.Type()}
+			if fs == SU && !strings.Contains(v.T, "q_") && sc.now != "" && sc.now != "0" {
+				switch f.Type().Underlying().(type) {
+				case *types.Pointer, *types.Interface, *types.Map, *types.Chan:
+					// heap well-formedness: what an allocated object refers to is allocated
+					fact := fmt.Sprintf("(< (atime %s) %s)", v.T, sc.now)
+					sc.st.pc = append(sc.st.pc, fact)
+				}
+			}
+			return v
 		}
 	}
 	specFail("type %s has no field %s", named.Obj().Name(), e.Name)
@@ -391,6 +413,19 @@ func sortByName(n string) Sort {
 		return SStr
 	}
 	return SU
+}
+
+// immutableFn returns the pure function that stands for an immutable field, if declared.
+func (e *Engine) immutableFn(named *types.Named, field string) string {
+	pkg := ""
+	if named.Obj().Pkg() != nil {
+		pkg = named.Obj().Pkg().Name()
+	}
+	ts := e.contracts.Types[pkg+"."+named.Obj().Name()]
+	if ts == nil {
+		return ""
+	}
+	return ts.Immutable[field]
 }
 
 func (sc *specCtx) expandModel(named *types.Named, m string, x Val) (Val, bool) {
@@ -496,7 +531,7 @@ func (sc *specCtx) evalCall(e *CallE) Val {
 			if a[0].GT != nil {
 				if _, ok := a[0].GT.Underlying().(*types.Map); ok {
 					r := sc.fc.regionIn(sc.st, sc.heap, "map.card", "(Array U Int)")
-					return intVal(sel(r, a[0].T))
+					return intVal(fmt.Sprintf("(ite (= %s nil) 0 %s)", a[0].T, sel(r, a[0].T)))
 				}
 			}
 		}
@@ -678,7 +713,7 @@ func (sc *specCtx) evalCall(e *CallE) Val {
 	case "dom":
 		a := args(2)
 		r := sc.fc.regionIn(sc.st, sc.heap, "map.dom", "(Array U (Array U Bool))")
-		return boolVal(sel(sel(r, a[0].T), uArg(a[1]).T))
+		return boolVal(and(not(eq(a[0].T, "nil")), sel(sel(r, a[0].T), uArg(a[1]).T)))
 	case "get":
 		a := args(2)
 		r := sc.fc.regionIn(sc.st, sc.heap, "map.get", "(Array U (Array U U))")
@@ -686,7 +721,7 @@ func (sc *specCtx) evalCall(e *CallE) Val {
 	case "card":
 		a := args(1)
 		r := sc.fc.regionIn(sc.st, sc.heap, "map.card", "(Array U Int)")
-		return intVal(sel(r, a[0].T))
+		return intVal(fmt.Sprintf("(ite (= %s nil) 0 %s)", a[0].T, sel(r, a[0].T)))
 	}
 	if d, ok := sc.fc.e.contracts.Decls[e.Fun]; ok {
 		a := args(len(d.Args))
